@@ -203,6 +203,18 @@ def parameter_points(tier):
             pts.append(('rooms', {'shape': (7, size), 'layout': (2, rooms_n)}))
         for rooms_n in (2, 5, 7, 11, 13):
             pts.append(('memory_rooms', {'shape': (size, 7), 'layout': (rooms_n, 1), 'colors': ('RED', 'GREEN'), 'num_beacons': 1, 'num_exits': 2}))
+    # a few sizes far beyond the shipped ones for every reset function (anything whose cost or depth grows with the number
+    # of cells - recursion, quadratic scans - shows up only here)
+    for sh in ((35, 35), (41, 41), (5, 301), (301, 5)) + (((61, 61),) if tier != 'quick' else ()):
+        pts.append(('empty', {'shape': sh, 'random_agent': True, 'random_exit': True}))
+        pts.append(('rooms', {'shape': sh, 'layout': (2, 2) if min(sh) > 5 else (1, 1)}))
+        pts.append(('dynamic_obstacles', {'shape': sh, 'num_obstacles': 5, 'random_agent': True}))
+        pts.append(('keydoor', {'shape': sh}))
+        for nr in (1, 2, 5):
+            pts.append(('crossing', {'shape': sh, 'num_rivers': nr, 'object_type': 'Wall'}))
+        pts.append(('teleport', {'shape': sh}))
+        pts.append(('memory', {'shape': sh, 'colors': ('RED', 'GREEN')}))
+        pts.append(('memory_rooms', {'shape': sh, 'layout': (1, 1), 'colors': ('RED', 'GREEN'), 'num_beacons': 1, 'num_exits': 2}))
     for name, params in SHIPPED:
         if (name, params) not in pts:
             pts.append((name, params))
